@@ -437,6 +437,144 @@ theorem removeAttrpathValue_agree (ts : Node) (segs : List Text)
   unfold removeAttrpathValue
   rw [walkAttrpathStack_agree hA ts segs false true hts hs]
 
+theorem resolveParentWalk_agree (cm : Bool) (keys : List Text) (hs : ∀ k ∈ keys, KeyOK T k) :
+    ∀ (cur : Node), Within T cur → ∀ {α : Type} (k1 k2 : Node → EditM α),
+      (∀ n, Within T n → k1 n = k2 n) →
+      (@resolveParentWalk I1 cm cur keys >>= k1) = (@resolveParentWalk I2 cm cur keys >>= k2) := by
+  induction keys with
+  | nil =>
+    intro cur hcur α k1 k2 hk
+    simp only [resolveParentWalk]
+    exact hk cur hcur
+  | cons key more ih =>
+    intro cur hcur α k1 k2 hk
+    have hkey := hs key (by simp)
+    have hmore : ∀ k ∈ more, KeyOK T k := fun k h => hs k (by simp [h])
+    simp only [resolveParentWalk]
+    rw [setGetItem_agree hA cur key hcur hkey]
+    cases hg : @setGetItem I2 cur key with
+    | ok v =>
+      have hv : Within T v := setGetItem_within I2 cur key v hcur hkey.1 hg
+      cases v <;> try rfl
+      exact ih hmore _ hv k1 k2 hk
+    | error e =>
+      simp only []
+      split
+      · rfl
+      · cases hsid : cur.setSid? with
+        | none => rfl
+        | some csid =>
+          simp only [em_bind_assoc]
+          apply em_bind_congr; intro sid
+          rw [setSetItem_agree hA cur key _ hcur hkey.1]
+          apply em_bind_congr; intro _
+          exact ih hmore _ (within_fresh_set T sid _ _) k1 k2 hk
+
+theorem assignExisting_agree (ts parent : Node) (wl : Bool) (b v : Node)
+    (hparent : Within T parent) (hb : Within T b) :
+    @assignExisting I1 ts parent wl b v = @assignExisting I2 ts parent wl b v := by
+  unfold assignExisting
+  cases hid : b.bindId? with
+  | none => rfl
+  | some bid =>
+    cases hv : b.bindValue? with
+    | none => rfl
+    | some val =>
+      cases val <;> try rfl
+      rename_i targetName
+      have htn : targetName ∈ T := within_ident (within_value hb hv)
+      simp only [findBinding_agree hA (within_values hparent) htn]
+
+/-- every segment `_format_npath_segments` makes of the path text is a key within `T` -/
+def PathOK (T : List Text) (npath : Text) : Prop :=
+  ∀ segs, formatNPath currentAnchor npath = .ok segs → ∀ s ∈ segs, KeyOK T s
+
+theorem setValueInAttrset_agree (ts : Node) (wl : Bool) (npath : Text) (v : Node)
+    (hts : Within T ts) (hp : PathOK T npath) :
+    @setValueInAttrset I1 ts wl npath v = @setValueInAttrset I2 ts wl npath v := by
+  unfold setValueInAttrset
+  cases hf : formatNPath currentAnchor npath with
+  | error e => rfl
+  | ok segs =>
+    have hk := hp segs hf
+    have hsT : ∀ s ∈ segs, s ∈ T := fun s h => (hk s h).1
+    cases segs with
+    | nil => rfl
+    | cons seg0 segRest =>
+      cases hsid : ts.setSid? with
+      | none => rfl
+      | some tsSid =>
+        have hvs := within_values hts
+        have h0 : seg0 ∈ T := hsT seg0 (by simp)
+        simp only []
+        rw [findAttrpathLeaf_agree hA ts _ hts hsT, findAttrpathRoot_agree hA hvs h0,
+          findBinding_agree hA hvs h0]
+        cases hl : @findAttrpathLeaf I2 ts (seg0 :: segRest) with
+        | some leaf => rfl
+        | none =>
+          simp only []
+          split
+          · split
+            · rfl
+            · cases hb : @findBinding I2 ts.setValues seg0 with
+              | some b =>
+                have hbw : Within T b := by unfold findBinding at hb; exact find?_within hvs hb
+                exact assignExisting_agree hA ts ts wl b v hts hbw
+              | none => exact setSetItem_agree hA ts seg0 v hts h0
+          · cases hr : @findAttrpathRoot I2 ts.setValues seg0 with
+            | some root =>
+              have hrw : Within T root := by unfold findAttrpathRoot at hr; exact find?_within hvs hr
+              exact setAttrpathValue_agree hA tsSid root _ v hrw hsT
+            | none =>
+              simp only []
+              apply resolveParentWalk_agree hA true _
+                (fun k h => hk k (mem_of_mem_dropLast' _ _ h)) ts hts
+              intro parent hparent
+              cases hlast : (seg0 :: segRest).getLast? with
+              | none => rfl
+              | some finalKey =>
+                have hfk : finalKey ∈ T := hsT _ (getLast?_mem hlast)
+                have hpv := within_values hparent
+                simp only []
+                rw [findBinding_agree hA hpv hfk]
+                cases hb : @findBinding I2 parent.setValues finalKey with
+                | some b =>
+                  have hbw : Within T b := by unfold findBinding at hb; exact find?_within hpv hb
+                  exact assignExisting_agree hA ts parent wl b v hparent hbw
+                | none => exact setSetItem_agree hA parent finalKey v hparent hfk
+
+theorem removeValueInAttrset_agree (ts : Node) (npath : Text)
+    (hts : Within T ts) (hp : PathOK T npath) :
+    @removeValueInAttrset I1 ts npath = @removeValueInAttrset I2 ts npath := by
+  unfold removeValueInAttrset
+  cases hf : formatNPath currentAnchor npath with
+  | error e => rfl
+  | ok segs =>
+    have hk := hp segs hf
+    have hsT : ∀ s ∈ segs, s ∈ T := fun s h => (hk s h).1
+    cases segs with
+    | nil => rfl
+    | cons seg0 segRest =>
+      have hvs := within_values hts
+      have h0 : seg0 ∈ T := hsT seg0 (by simp)
+      simp only []
+      rw [findAttrpathLeaf_agree hA ts _ hts hsT, findAttrpathRoot_agree hA hvs h0,
+        findBinding_agree hA hvs h0, removeAttrpathValue_agree hA ts _ hts hsT,
+        setDelItem_agree hA ts seg0 hts h0]
+      split
+      · rfl
+      · split
+        · rfl
+        · split
+          · rfl
+          · apply resolveParentWalk_agree hA false _
+              (fun k h => hk k (mem_of_mem_dropLast' _ _ h)) ts hts
+            intro parent hparent
+            cases hlast : (seg0 :: segRest).getLast? with
+            | none => rfl
+            | some finalKey =>
+              exact setDelItem_agree hA parent finalKey hparent (hsT _ (getLast?_mem hlast))
+
 end
 
 end Nima
